@@ -115,6 +115,11 @@ impl Ty {
     }
 }
 
+/// The twin of a rendered source in which every generated implicit widening assignment is an explicit conversion.
+pub fn explicit_widening(src: &str) -> Option<String> {
+    src.contains("(*w ").then(|| src.replace("(*w ", "").replace(" w*)", ""))
+}
+
 /// knobs steering the generator (swarm configuration)
 #[derive(Clone, Debug)]
 pub struct Knobs {
@@ -400,9 +405,12 @@ impl<'a> Gen<'a> {
                 if self.k.widening && self.r.chance(1, 5) {
                     // implicit widening: a bare narrower variable on the right-hand side
                     let narrower = v.ty.narrower();
-                    let c: Vec<String> = sc.vars.iter().chain(sc.ro.iter()).filter(|x| narrower.contains(&x.ty)).map(|x| x.name.clone()).collect();
+                    let c: Vec<(String, Ty)> = sc.vars.iter().chain(sc.ro.iter()).filter(|x| narrower.contains(&x.ty)).map(|x| (x.name.clone(), x.ty)).collect();
                     if !c.is_empty() {
-                        return format!("{} := {};", v.name, c[self.r.below(c.len() as u64) as usize]);
+                        // the comment markers carry the explicit conversion: `explicit_widening` strips them to get
+                        // the twin in which the same assignment is written `v := A_TO_B(n);`
+                        let (n, nty) = c[self.r.below(c.len() as u64) as usize].clone();
+                        return format!("{} := (*w {}_TO_{}( w*){}(*w ) w*);", v.name, nty.name(), v.ty.name(), n);
                     }
                 }
                 format!("{} := {};", v.name, self.expr(sc, v.ty, 0))
